@@ -56,8 +56,11 @@ inline void mkdir_p(const std::string &path) {
   }
 }
 
+// (no O_TRUNC: truncating a tmpfs file frees its pages and the next write
+// allocates them again, which is the dominant cost when 16 shards run in
+// parallel; overwrite in place and cut to length instead)
 inline bool write_file(const std::string &path, const std::string &data) {
-  int fd = open(path.c_str(), O_WRONLY | O_CREAT | O_TRUNC | O_NOFOLLOW, 0644);
+  int fd = open(path.c_str(), O_WRONLY | O_CREAT | O_NOFOLLOW, 0644);
   if (fd < 0) return false;
   size_t off = 0;
   while (off < data.size()) {
@@ -67,6 +70,10 @@ inline bool write_file(const std::string &path, const std::string &data) {
       return false;
     }
     off += (size_t)w;
+  }
+  if (ftruncate(fd, (off_t)data.size()) != 0) {
+    close(fd);
+    return false;
   }
   close(fd);
   return true;
